@@ -20,17 +20,18 @@ CONSTANT TraceFile
 
 Trace == ndJsonDeserialize(TraceFile)
 
-VARIABLES l,      \* position in Trace
+VARIABLES pp,     \* identity of the parser object of the pass in progress
+          l,      \* position in Trace
           bad,    \* <<position, run id, reason>> for every rejected event
           runid,  \* id of the run being validated
           modes,  \* output record kinds this run's flags allow besides diagnostics
           nruns
 
-tvars == <<vars, l, bad, runid, modes, nruns>>
+tvars == <<vars, pp, l, bad, runid, modes, nruns>>
 
 TInit == /\ np = 0 /\ ri = 0 /\ fi = 0 /\ row = 1 /\ nsteps = 0 /\ atEOF = FALSE /\ eofReads = 0
          /\ errs = <<>> /\ printed = <<>> /\ status = "exit0"
-         /\ l = 1 /\ bad = <<>> /\ runid = "" /\ modes = {} /\ nruns = 0
+         /\ pp = "" /\ l = 1 /\ bad = <<>> /\ runid = "" /\ modes = {} /\ nruns = 0
 
 Reject(reason) == bad' = Append(bad, <<l, runid, reason>>)
 
@@ -41,7 +42,7 @@ TStart ==
     /\ E.ev = "start"
     /\ np' = E.np /\ ri' = 0 /\ fi' = 0 /\ row' = 1 /\ nsteps' = 0 /\ atEOF' = FALSE /\ eofReads' = 0
     /\ errs' = <<>> /\ printed' = <<>> /\ status' = "running"
-    /\ runid' = E.id /\ modes' = {E.modes[i] : i \in DOMAIN E.modes} /\ nruns' = nruns + 1
+    /\ runid' = E.id /\ modes' = {E.modes[i] : i \in DOMAIN E.modes} /\ nruns' = nruns + 1 /\ pp' = ""
     /\ IF status = "exit0" THEN UNCHANGED bad ELSE Reject("previous run never reached exit 0")
 
 \* --- round --------------------------------------------------------------
@@ -52,7 +53,7 @@ TRound ==
                  /\ (ri = 0 \/ (fi = Len(Files) /\ atEOF))
        IN  /\ ri' = RoundIndex(E.round) /\ fi' = 0 /\ atEOF' = FALSE
            /\ IF ok THEN UNCHANGED bad ELSE Reject("round out of order or previous round incomplete")
-    /\ UNCHANGED <<np, row, nsteps, eofReads, errs, printed, status, runid, modes, nruns>>
+    /\ UNCHANGED <<np, row, nsteps, eofReads, errs, printed, status, runid, modes, nruns, pp>>
 
 \* --- step: StartFile (when the pass changes) composed with Step ---------
 FileIndex(f) == IF \E i \in 1..Len(Files) : Files[i] = f
@@ -75,20 +76,33 @@ TStep ==
        IN  /\ fi' = IF reason = "" THEN fi2 ELSE FileIndex(E.file)
            /\ row' = E.row /\ atEOF' = E.eof /\ eofReads' = E.eofReads
            /\ nsteps' = IF fresh THEN 1 ELSE nsteps + 1
+           /\ pp' = E.pp
            /\ IF reason = "" THEN UNCHANGED bad ELSE Reject(reason)
     /\ UNCHANGED <<np, ri, errs, printed, status, runid, modes, nruns>>
 
 \* --- err: Parser.Fatal ---------------------------------------------------
+\* Three cases: (a) on the pass's own parser: RecordError; (b) on a by-value copy of the parser
+\* (IfUnless evaluates conditions ahead on a copy): the diagnostic is lost with the copy -
+\* Run!LookaheadError; (c) the very first Read of a new pass fails before the pass's first
+\* step event: StartFile composed with RecordError.
 TErr ==
     /\ E.ev = "err"
-    /\ LET reason == IF status # "running" \/ ri = 0 \/ fi = 0 THEN "diagnostic outside a file pass"
+    /\ LET fresh == (fi = 0 \/ atEOF) /\ fi < Len(Files) /\ Files[fi + 1] = E.file
+           fi2   == IF fresh THEN fi + 1 ELSE fi
+           reason == IF status # "running" \/ ri = 0 \/ fi2 = 0 THEN "diagnostic outside a file pass"
                      ELSE IF Rounds[ri] # E.round THEN "diagnostic of another round"
-                     ELSE IF Files[fi] # E.file THEN "diagnostic names a file other than the one being analysed"
+                     ELSE IF Files[fi2] # E.file THEN "diagnostic names a file other than the one being analysed"
                      ELSE ""
-           keep == reason = "" /\ E.round = "check" /\ fi = Len(Files)
+           own  == fresh \/ E.pp = pp
+           keep == reason = "" /\ own /\ E.round = "check" /\ fi2 = Len(Files)
        IN  /\ errs' = IF keep THEN Append(errs, [file |-> E.file, row |-> E.row, msg |-> E.msg]) ELSE errs
+           /\ fi' = fi2
+           /\ atEOF' = (IF fresh THEN FALSE ELSE atEOF)
+           /\ row' = (IF fresh THEN 1 ELSE row)
+           /\ nsteps' = (IF fresh THEN 0 ELSE nsteps)
+           /\ pp' = (IF fresh THEN E.pp ELSE pp)
            /\ IF reason = "" THEN UNCHANGED bad ELSE Reject(reason)
-    /\ UNCHANGED <<np, ri, fi, row, nsteps, atEOF, eofReads, printed, status, runid, modes, nruns>>
+    /\ UNCHANGED <<np, ri, eofReads, printed, status, runid, modes, nruns>>
 
 \* --- exit: Finish --------------------------------------------------------
 Diags(lines) == SelectSeq(lines, LAMBDA x : x.kind = "d")
@@ -112,17 +126,17 @@ TExit ==
              ELSE ""
        IN  /\ printed' = E.lines /\ status' = "exit0"
            /\ IF reason = "" THEN UNCHANGED bad ELSE Reject(reason)
-    /\ UNCHANGED <<np, ri, fi, row, nsteps, atEOF, eofReads, errs, runid, modes, nruns>>
+    /\ UNCHANGED <<np, ri, fi, row, nsteps, atEOF, eofReads, errs, runid, modes, nruns, pp>>
 
 \* --- events Run does not model -------------------------------------------
 TOther ==
     /\ E.ev \in {"bind", "call", "ret"}
-    /\ UNCHANGED <<vars, bad, runid, modes, nruns>>
+    /\ UNCHANGED <<vars, bad, runid, modes, nruns, pp>>
 
 TMutation ==
     /\ E.ev = "mutation"
     /\ Reject("a configured builtin entry was modified during analysis")
-    /\ UNCHANGED <<vars, runid, modes, nruns>>
+    /\ UNCHANGED <<vars, runid, modes, nruns, pp>>
 
 TNext == /\ l <= Len(Trace)
          /\ l' = l + 1
